@@ -9,9 +9,27 @@ inductive SK where
   | list | seq | mutseq | tupleHomo | deque | set | mutset | fset
   deriving DecidableEq, Repr, Inhabited
 
+/-- mapping type constructors: `dict[K, V]`, `Mapping[K, V]`, `MutableMapping[K, V]` (all structured into a `dict`),
+`OrderedDict[K, V]`, `defaultdict[K, V]` (its `default_factory` is `V`), `Counter[K]` (its value type is `int`) -/
 inductive MK where
   | dict | mapping | mutmapping
+  | ordered | defaultdict | counter
   deriving DecidableEq, Repr, Inhabited
+
+/-- the `dict` subclass a mapping type is structured into by a `Converter` (`gen_structure_mapping`:
+`structure_to = get_origin(cl)`, the abc spellings default to `dict`; `gen_structure_counter`;
+`defaultdict_structure_factory`); `none`: a plain `dict` -/
+def MK.target : MK → Option DK
+  | .dict | .mapping | .mutmapping => Option.none
+  | .ordered => some .ordered
+  | .defaultdict => some .defaultdict
+  | .counter => some .counter
+
+/-- `structure_to(res)` -/
+def mkMapObj (k : MK) (kvs : List (Obj × Obj)) : Obj :=
+  match k.target with
+  | Option.none => .dict kvs
+  | some d => .mdict d kvs
 
 /-- transparent wrappers -/
 inductive WK where
@@ -129,6 +147,7 @@ def hashable (w : World) : Obj → Bool
   | .coll .fset _ => true
   | .coll _ _ => false
   | .dict _ => false
+  | .mdict _ _ => false
   | .inst c fs => w.frozen c && hashableF w fs
   | _ => true
 termination_by structural x => x
